@@ -373,3 +373,35 @@ Qed.
 (* the guard is exactly non-negativity: a negative completable amount of a native record halts the block end *)
 Lemma complete_negative_native a : a < 0 -> complete_gen true a = Panic.
 Proof. intro H. unfold complete_gen. destruct (a <? 0) eqn:E; [reflexivity|apply Z.ltb_ge in E; lia]. Qed.
+
+(* ---- stored price strings ---- *)
+Lemma price_value_total parsed : exists v, price_value parsed = Ok v /\ 0 < v.
+Proof.
+  destruct parsed as [v|]; simpl; [|exists 1; split; [reflexivity|lia]].
+  destruct (v <=? 0) eqn:E; [exists 1; split; [reflexivity|lia]|].
+  apply Z.leb_gt in E. exists v. split; [reflexivity|lia].
+Qed.
+
+(* ---- validator set at a dogfood epoch end ---- *)
+Lemma valset_nonempty minself nprev ops :
+  existsb (eligible minself) ops = true -> valset_epoch_end minself nprev ops <> None.
+Proof.
+  intro H. unfold valset_epoch_end.
+  assert (L : List.length (filter (eligible minself) ops) <> 0%nat).
+  { induction ops as [|o r IH]; simpl in *; [discriminate|].
+    destruct (eligible minself o); simpl; [discriminate|]. apply IH. exact H. }
+  destruct nprev; [discriminate|].
+  destruct (List.length (filter (eligible minself) ops)); [contradiction|discriminate].
+Qed.
+
+(* three ordinary histories empty the eligible set within one epoch: the update list is refused *)
+Definition v3 : list voper := [mkVOp true false 101 101; mkVOp true false 100 100; mkVOp true false 100 100].
+Definition h_all_opt_out : list vtx := [VOptOut 0; VOptOut 1; VOptOut 2].
+Definition h_all_below_min : list vtx := [VUndelegateSelf 0 2; VUndelegateSelf 1 1; VUndelegateSelf 2 1].
+Definition h_all_jailed : list vtx := [VJail 0; VJail 1; VJail 2].
+Lemma valset_empty_witnesses :
+  existsb (eligible 100) v3 = true /\
+  valset_epoch_end 100 3 (fold_left vstep h_all_opt_out v3) = None /\
+  valset_epoch_end 100 3 (fold_left vstep h_all_below_min v3) = None /\
+  valset_epoch_end 100 3 (fold_left vstep h_all_jailed v3) = None.
+Proof. repeat split; reflexivity. Qed.
